@@ -18,6 +18,131 @@ from rules.C06 import check_regex_key
 NAME = "keep-unique"
 
 
+def check_model(ctx, out, rule="C07.model"):
+    """keep-unique on a small model: three content lines, each without a key or with key A or B (27
+    patterns), in the plain mode (key = line.trim(), blank lines have no key) and in the pattern mode
+    with the `value` group taking part in the match or not (key = text of the `value` group, else of
+    the whole match; non-matching lines have no key). Expected: a violation iff two keys are equal,
+    exactly one, designating the first line whose key has already occurred."""
+    from rules import linemodel as LMo
+    from engine import casewalk as CW
+    from engine import listmodel as LM
+    import itertools
+    vb = ctx.validate_body(NAME, inline=True, sugar=True)
+    if vb is None:
+        return None
+    n = 0
+    total = 0
+    for mode in ("plain", "value-group", "whole-match"):
+        for case in itertools.product(("-", "A", "B"), repeat=3):
+            total += 1
+            lines = [CW.sym("L%d" % i) for i in range(3)]
+
+            def line_of(v):
+                return int(v[1][1:]) if v[0] == "sym" and re.match(r"^L\d$", str(v[1])) else None
+
+            def extra(w, bb, t, argv, env, rep, case=case, mode=mode):
+                nm = callee_name(t)
+                a0 = w.deref_val(env, argv[0]) if argv else CW.TOP
+                if re.search(r"regex::Regex::new$", nm):
+                    return CW.adt("std::result::Result", "Ok", 0, [("0", CW.sym("RE"))])
+                if re.search(r"HashSet::<T>::new$|HashSet::<T, S>::(default|with_hasher)$|HashSet::<T>::with_capacity$|Default>?::default$", nm) and "HashSet" in (t.get("dest_ty") or ""):
+                    return LM.lst(())
+                if re.search(r"<impl str>::trim$", nm) and line_of(a0) is not None:
+                    return CW.sym("trim", a0)
+                if re.search(r"<impl str>::(trim_start|trim_end|trim_ascii\w*|trim_matches|to_\w+|replace\w*)$", nm) and a0[0] == "sym":
+                    return CW.sym(nm.split("::")[-1], a0)
+                if re.search(r"<impl str>::is_empty$", nm) and a0[0] == "sym":
+                    if a0[1] == "trim" and line_of(a0[2]) is not None:
+                        if mode != "plain":
+                            return None
+                        return CW.const(1 if case[line_of(a0[2])] == "-" else 0)
+                    return None
+                if re.search(r"regex::Regex::captures$", nm) and len(argv) > 1:
+                    x = w.deref_val(env, argv[1])
+                    i = line_of(x)
+                    if i is None:
+                        rep.problems.append("the pattern is matched against %s, not against the content line" % LMo_show(x))
+                        return None
+                    if mode == "plain":
+                        rep.problems.append("the pattern is consulted although the attribute is empty")
+                    return CW.adt("std::option::Option", "Some", 1, [("0", CW.sym("CAPS", i))]) if case[i] != "-" else CW.adt("std::option::Option", "None", 0, [])
+                if re.search(r"regex::Captures(::<'h>)?::name$", nm) and a0[0] == "sym" and a0[1] == "CAPS":
+                    k = w.deref_val(env, argv[1]) if len(argv) > 1 else CW.TOP
+                    if k != CW.const("value"):
+                        return CW.adt("std::option::Option", "Some", 1, [("0", CW.sym("OTHER-GROUP", a0[2]))])
+                    return CW.adt("std::option::Option", "Some", 1, [("0", CW.sym("M", a0[2]))]) if mode == "value-group" else CW.adt("std::option::Option", "None", 0, [])
+                if re.search(r"regex::Captures(::<'h>)?::get$", nm) and a0[0] == "sym" and a0[1] == "CAPS":
+                    k = w.deref_val(env, argv[1]) if len(argv) > 1 else CW.TOP
+                    if k != CW.const(0):
+                        return CW.adt("std::option::Option", "Some", 1, [("0", CW.sym("OTHER-GROUP", a0[2]))])
+                    return CW.adt("std::option::Option", "Some", 1, [("0", CW.sym("M0", a0[2]))])
+                if re.search(r"regex::Match(::<'h>)?::as_str$", nm) and a0[0] == "sym" and a0[1] in ("M", "M0", "OTHER-GROUP"):
+                    return CW.sym("text", a0)
+                if re.search(r"HashSet::<T, S, A>::(insert|contains|replace)$", nm) and len(argv) > 1 and a0[0] == "list":
+                    x = w.deref_val(env, argv[1])
+                    key = None
+                    if mode == "plain":
+                        if x[0] == "sym" and x[1] == "trim" and line_of(x[2]) is not None:
+                            key = case[line_of(x[2])]
+                    else:
+                        want = "M" if mode == "value-group" else "M0"
+                        if x[0] == "sym" and x[1] == "text" and x[2][0] == "sym" and x[2][1] == want:
+                            key = case[x[2][2]]
+                        elif x[0] == "sym" and x[1] == "text" and x[2][0] == "sym" and x[2][1] in ("M", "M0"):
+                            rep.problems.append("the key is the text of %s although %s" % ("the whole match" if x[2][1] == "M0" else "the `value` group", "the `value` group took part in the match" if mode == "value-group" else "there is no `value` group"))
+                            return None
+                    if key is None or key == "-":
+                        rep.problems.append("the key put into the seen-set is %s; expected %s" % (LMo_show(x), "line.trim() of a non-blank line" if mode == "plain" else "the text of the `value` group, else of the whole match, of a matching line"))
+                        return None
+                    present = CW.const(key) in a0[1]
+                    if nm.endswith("::contains"):
+                        return CW.const(1 if present else 0)
+                    if not present:
+                        cell = LM._cell(w, env, argv[0])
+                        if cell is None:
+                            return None
+                        w.write_place(env, cell, LM.lst(a0[1] + (CW.const(key),)))
+                    w.mut_handled = True
+                    return CW.const(0 if present else 1)
+                return None
+            attr_value = CW.const("") if mode == "plain" else CW.const("(?P<value>x)|y")
+            rep = LMo.walk_block(ctx, vb, NAME, lines, extra, attr_value=attr_value)
+            if rep is None:
+                return None
+            seen, want = [], set()
+            for i, k in enumerate(case):
+                if k == "-":
+                    continue
+                if k in seen:
+                    want = {i}
+                    break
+                seen.append(k)
+            desc = "%s mode, line keys (%s)" % (mode, ", ".join(case))
+            tag = "%s|%s" % (mode, "".join(case))
+            if rep.problems:
+                out.viol(rule, "%s|%s|problem" % (rule, tag), ctx.where(vb), "%s: %s" % (desc, rep.problems[0]))
+            elif rep.reported != want:
+                if "?" in rep.reported or "sym" in rep.reported:
+                    out.viol(rule, "%s|%s|line-unknown" % (rule, tag), ctx.where(vb), "%s: a violation is built whose line does not come from Block::content_line_position(enumerate index)" % desc)
+                else:
+                    out.viol(rule, "%s|%s|verdict" % (rule, tag), ctx.where(vb),
+                             "%s: violations are built for content line index(es) %s; expected %s (a violation exactly when two keys are equal, designating the first line whose key has already occurred)"
+                             % (desc, sorted(rep.reported) or "none", sorted(want) or "none"))
+            else:
+                n += 1
+    out.inst(rule, n, total, ["3 modes x 27 key patterns of 3 lines: violation iff a key repeats, at the first repeating line"], exhaustive=True)
+    return n == total
+
+
+def LMo_show(v):
+    if v[0] == "sym":
+        return "%s(%s)" % (v[1], ", ".join(LMo_show(x) if isinstance(x, tuple) else str(x) for x in v[2:])) if len(v) > 2 else str(v[1])
+    if v[0] == "const":
+        return repr(v[1])
+    return v[0]
+
+
 def run(ctx, out, tier):
     vb = ctx.validate_body(NAME, inline=True, sugar=True)
     if vb is None:
@@ -26,134 +151,145 @@ def run(ctx, out, tier):
     out.inst("C07.anchor", 1, 1, [vb.id])
     cfg = cfg_of(vb)
     E = ctx.expr(vb)
-    loops = linelevel.line_loops(ctx, vb)
-    if len(loops) != 1:
-        out.inst("C07.loop", len(loops), 1, note="exactly one loop over content.lines() expected")
-        return meta()
-    header, blocks, next_bb = loops[0]
-    region = util.iter_region(vb, next_bb) | set(blocks)
-    out.inst("C07.loop", 1, 1, ["line loop header bb%d" % header])
-    pushes = [p for p in util.violation_push_sites(vb) if p[0] in region]
-
-    # ------------------------------------------------------------------ C07.seen
-    inserts = [(bi, t) for bi, t in vb.calls() if callee_matches(t, r"HashSet::<T, S, A>::insert$") and bi in region]
-    n_seen = 0
-    key_local = None
-    if len(inserts) != 1:
-        out.viol("C07.seen", "C07.seen|insert-count", ctx.where(vb), "expected exactly one `HashSet::insert` of the key in the line loop, found %d" % len(inserts))
+    # the verdict table on a small model (81 cases); if the model cannot follow the code, the structural
+    # rules below decide the same aspects instead
+    tr = out.trial()
+    try:
+        decided = check_model(ctx, tr)
+    except Exception as e:      # noqa: BLE001
+        ctx.view_fallbacks.append("C07.model: small-model analysis failed (%s: %s)" % (type(e).__name__, e))
+        decided = None
+    if decided is not None:
+        out.adopt(tr)
     else:
-        ibi, it = inserts[0]
-        ke = E.operand(it["args"][1])
-        r = ke
-        while r[0] == "proj":
-            r = r[1]
-        if r[0] == "var":
-            key_local = r[1]
-        # the set is created inside the per-block iteration: covered by SH.state; here: every push is
-        # guarded by insert(..) == false
-        for bi, t in pushes:
-            ok = False
-            for br, vals, e in util.guards(ctx, vb, bi):
-                if e[0] == "call" and re.search(r"HashSet::<T, S, A>::insert$", e[1]):
-                    if vals == {0}:
-                        ok = True
-                    else:
-                        out.viol("C07.seen", "C07.seen|polarity", ctx.where(vb, t["span"]),
-                                 "the keep-unique violation is pushed when `insert` returns TRUE, i.e. for a key that was NOT seen before")
-                        ok = True
-            if ok:
-                n_seen += 1
-            else:
-                out.viol("C07.seen", "C07.seen|guard", ctx.where(vb, t["span"]), "the keep-unique violation push is not guarded by `!seen.insert(key)`")
-        # every extracted key is inserted: the insert post-dominates the Some-arm of the key switch
-        # (no path with a key skips the set)
-        if key_local is not None:
-            some_arm = None
-            for bi, j, s in vb.assigns():
-                if s["rv"]["k"] == "discr" and s["rv"]["place"]["l"] == key_local and not s["rv"]["place"]["p"] and bi in region:
-                    dl = s["lhs"]["l"]
-                    for bj, t in vb.terms():
-                        if t["k"] == "switch" and (util.op_place(t["op"]) or {}).get("l") == dl:
-                            some_arm = util.switch_arms(vb, bj).get(1)
-            if some_arm is None:
-                # no Option-typed key variable (the lines without a key are filtered out before the
-                # scan): the insert must then be reached from every item the filtered iteration yields -
-                # nothing between the item and the insert may skip it
-                r2 = cfg.reach(util.switch_arms(vb, cfg.succ[next_bb][0]).get(1), avoid=(set(range(cfg.n)) - set(region)) | {ibi}) if cfg.succ[next_bb] else set()
-                skip = header in r2 or any(header in cfg.succ[x] for x in r2)
-                # (items dropped by the expanded filter / filter_map steps are lines without a key)
-                from_filter = all(vb.blocks[x].get("synthetic") or vb.blocks[x].get("closure_of") for x in r2 if header in cfg.succ[x] or x == header) if skip else True
-                if skip and not from_filter:
-                    out.viol("C07.seen", "C07.seen|skipped-key", ctx.where(vb),
-                             "there is a path through the line loop on which a key was extracted but not inserted into the seen-set: a later duplicate of it would be missed")
-                else:
-                    n_seen += 1
-            else:
-                outside = (set(range(cfg.n)) - set(region)) | {ibi}
-                r2 = cfg.reach(some_arm, avoid=outside)
-                if header in r2 or any(header in cfg.succ[x] for x in r2):
-                    out.viol("C07.seen", "C07.seen|skipped-key", ctx.where(vb),
-                             "there is a path through the line loop on which a key was extracted but not inserted into the seen-set: a later duplicate of it would be missed")
-                else:
-                    n_seen += 1
-            # the inserted value is the key (tuple field 0 of the extraction result)
-            labs = ctx.prov.read_operand(vb, it["args"][1])
-            if key_local is not None:
-                n_seen += 1
-    out.inst("C07.seen", n_seen, 3, ["push iff !seen.insert(key)", "every key is inserted"])
+        loops = linelevel.line_loops(ctx, vb)
+        if len(loops) != 1:
+            out.inst("C07.loop", len(loops), 1, note="exactly one loop over content.lines() expected")
+            return meta()
+        header, blocks, next_bb = loops[0]
+        region = util.iter_region(vb, next_bb) | set(blocks)
+        out.inst("C07.loop", 1, 1, ["line loop header bb%d" % header])
+        pushes = [p for p in util.violation_push_sites(vb) if p[0] in region]
 
-    # ------------------------------------------------------------------ C07.first
-    n_first = linelevel.first_wins(ctx, out, "C07.first", vb, region, header, pushes, "keep-unique")
-    out.inst("C07.first", n_first, 1, ["push -> leaves the line loop"])
-
-    # ------------------------------------------------------------------ C07.key
-    n_key = 0
-    if key_local is not None:
-        labs = ctx.prov.read_operand(vb, inserts[0][1]["args"][1]) if inserts else ctx.prov.read_local(vb, key_local, ("0", "0"))   # the key is what is inserted
-        where = ctx.where(vb)
-        linelevel.key_calls_allowed(ctx, out, "C07.key", vb, labs, where, "the uniqueness key", linelevel.KEY_ALLOWED)
-        if P.has_call(labs, r"<impl str>::trim$") and P.has_call(labs, r"<impl str>::lines$"):
-            n_key += 1
+        # ------------------------------------------------------------------ C07.seen
+        inserts = [(bi, t) for bi, t in vb.calls() if callee_matches(t, r"HashSet::<T, S, A>::insert$") and bi in region]
+        n_seen = 0
+        key_local = None
+        if len(inserts) != 1:
+            out.viol("C07.seen", "C07.seen|insert-count", ctx.where(vb), "expected exactly one `HashSet::insert` of the key in the line loop, found %d" % len(inserts))
         else:
-            out.viol("C07.key", "C07.key|not-trim", where, "without a regex the key derives from [%s]; expected `line.trim()`" % util.origins_text(labs, 6))
-        # blank lines are skipped: a None key is produced under trim().is_empty()
-        ok = False
-        # follow plain copies (a helper's return slot after inlining) back to the `None` aggregates
-        srcs, seen_l = [key_local], set()
-        while srcs:
-            l = srcs.pop()
-            if l in seen_l:
-                continue
-            seen_l.add(l)
-            for d in vb.defs().get(l, []):
-                if d[0] != "stmt":
-                    continue
-                rv = d[3]["rv"]
-                if rv["k"] == "use" and util.op_place(rv["op"]) and not util.op_place(rv["op"])["p"]:
-                    srcs.append(util.op_place(rv["op"])["l"])
-                if rv["k"] == "agg" and rv.get("variant") == "None":
-                    for br, vals, e in util.guards(ctx, vb, d[1]):
-                        if re.search(r"str::is_empty\(str::trim\(", render(e, 300)) and 0 not in vals:
+            ibi, it = inserts[0]
+            ke = E.operand(it["args"][1])
+            r = ke
+            while r[0] == "proj":
+                r = r[1]
+            if r[0] == "var":
+                key_local = r[1]
+            # the set is created inside the per-block iteration: covered by SH.state; here: every push is
+            # guarded by insert(..) == false
+            for bi, t in pushes:
+                ok = False
+                for br, vals, e in util.guards(ctx, vb, bi):
+                    if e[0] == "call" and re.search(r"HashSet::<T, S, A>::insert$", e[1]):
+                        if vals == {0}:
                             ok = True
-        if not ok and inserts:
-            # ... or the insert itself is only reached for a non-blank line
-            for br, vals, e in util.guards(ctx, vb, inserts[0][0]):
-                if re.search(r"str::is_empty\(str::trim\(", render(e, 300)) and vals == {0}:
-                    ok = True
-        if ok:
-            n_key += 1
-        else:
-            out.viol("C07.key", "C07.key|blank", where, "no `None` key under `line.trim().is_empty()`: blank lines are not skipped")
-        n_key += check_regex_key(ctx, out, vb, "C07.key", labs, scope_blocks=region)
-        # the regex comes from the keep-unique attribute itself
-        news = [(bi, t) for bi, t in vb.calls() if callee_matches(t, r"regex::Regex::new$")]
-        for bi, t in news:
-            la = ctx.prov.read_operand(vb, t["args"][0])
-            if P.has_const(la, NAME):
+                        else:
+                            out.viol("C07.seen", "C07.seen|polarity", ctx.where(vb, t["span"]),
+                                     "the keep-unique violation is pushed when `insert` returns TRUE, i.e. for a key that was NOT seen before")
+                            ok = True
+                if ok:
+                    n_seen += 1
+                else:
+                    out.viol("C07.seen", "C07.seen|guard", ctx.where(vb, t["span"]), "the keep-unique violation push is not guarded by `!seen.insert(key)`")
+            # every extracted key is inserted: the insert post-dominates the Some-arm of the key switch
+            # (no path with a key skips the set)
+            if key_local is not None:
+                some_arm = None
+                for bi, j, s in vb.assigns():
+                    if s["rv"]["k"] == "discr" and s["rv"]["place"]["l"] == key_local and not s["rv"]["place"]["p"] and bi in region:
+                        dl = s["lhs"]["l"]
+                        for bj, t in vb.terms():
+                            if t["k"] == "switch" and (util.op_place(t["op"]) or {}).get("l") == dl:
+                                some_arm = util.switch_arms(vb, bj).get(1)
+                if some_arm is None:
+                    # no Option-typed key variable (the lines without a key are filtered out before the
+                    # scan): the insert must then be reached from every item the filtered iteration yields -
+                    # nothing between the item and the insert may skip it
+                    r2 = cfg.reach(util.switch_arms(vb, cfg.succ[next_bb][0]).get(1), avoid=(set(range(cfg.n)) - set(region)) | {ibi}) if cfg.succ[next_bb] else set()
+                    skip = header in r2 or any(header in cfg.succ[x] for x in r2)
+                    # (items dropped by the expanded filter / filter_map steps are lines without a key)
+                    from_filter = all(vb.blocks[x].get("synthetic") or vb.blocks[x].get("closure_of") for x in r2 if header in cfg.succ[x] or x == header) if skip else True
+                    if skip and not from_filter:
+                        out.viol("C07.seen", "C07.seen|skipped-key", ctx.where(vb),
+                                 "there is a path through the line loop on which a key was extracted but not inserted into the seen-set: a later duplicate of it would be missed")
+                    else:
+                        n_seen += 1
+                else:
+                    outside = (set(range(cfg.n)) - set(region)) | {ibi}
+                    r2 = cfg.reach(some_arm, avoid=outside)
+                    if header in r2 or any(header in cfg.succ[x] for x in r2):
+                        out.viol("C07.seen", "C07.seen|skipped-key", ctx.where(vb),
+                                 "there is a path through the line loop on which a key was extracted but not inserted into the seen-set: a later duplicate of it would be missed")
+                    else:
+                        n_seen += 1
+                # the inserted value is the key (tuple field 0 of the extraction result)
+                labs = ctx.prov.read_operand(vb, it["args"][1])
+                if key_local is not None:
+                    n_seen += 1
+        out.inst("C07.seen", n_seen, 3, ["push iff !seen.insert(key)", "every key is inserted"])
+
+        # ------------------------------------------------------------------ C07.first
+        n_first = linelevel.first_wins(ctx, out, "C07.first", vb, region, header, pushes, "keep-unique")
+        out.inst("C07.first", n_first, 1, ["push -> leaves the line loop"])
+
+        # ------------------------------------------------------------------ C07.key
+        n_key = 0
+        if key_local is not None:
+            labs = ctx.prov.read_operand(vb, inserts[0][1]["args"][1]) if inserts else ctx.prov.read_local(vb, key_local, ("0", "0"))   # the key is what is inserted
+            where = ctx.where(vb)
+            linelevel.key_calls_allowed(ctx, out, "C07.key", vb, labs, where, "the uniqueness key", linelevel.KEY_ALLOWED)
+            if P.has_call(labs, r"<impl str>::trim$") and P.has_call(labs, r"<impl str>::lines$"):
                 n_key += 1
             else:
-                out.viol("C07.key", "C07.key|pattern-source", ctx.where(vb, t["span"]), "the regex is compiled from [%s], not from the `keep-unique` attribute" % util.origins_text(la, 4))
-    out.inst("C07.key", n_key, 7, ["key := line.trim() | caps.name('value') else caps.get(0) | skip"])
+                out.viol("C07.key", "C07.key|not-trim", where, "without a regex the key derives from [%s]; expected `line.trim()`" % util.origins_text(labs, 6))
+            # blank lines are skipped: a None key is produced under trim().is_empty()
+            ok = False
+            # follow plain copies (a helper's return slot after inlining) back to the `None` aggregates
+            srcs, seen_l = [key_local], set()
+            while srcs:
+                l = srcs.pop()
+                if l in seen_l:
+                    continue
+                seen_l.add(l)
+                for d in vb.defs().get(l, []):
+                    if d[0] != "stmt":
+                        continue
+                    rv = d[3]["rv"]
+                    if rv["k"] == "use" and util.op_place(rv["op"]) and not util.op_place(rv["op"])["p"]:
+                        srcs.append(util.op_place(rv["op"])["l"])
+                    if rv["k"] == "agg" and rv.get("variant") == "None":
+                        for br, vals, e in util.guards(ctx, vb, d[1]):
+                            if re.search(r"str::is_empty\(str::trim\(", render(e, 300)) and 0 not in vals:
+                                ok = True
+            if not ok and inserts:
+                # ... or the insert itself is only reached for a non-blank line
+                for br, vals, e in util.guards(ctx, vb, inserts[0][0]):
+                    if re.search(r"str::is_empty\(str::trim\(", render(e, 300)) and vals == {0}:
+                        ok = True
+            if ok:
+                n_key += 1
+            else:
+                out.viol("C07.key", "C07.key|blank", where, "no `None` key under `line.trim().is_empty()`: blank lines are not skipped")
+            n_key += check_regex_key(ctx, out, vb, "C07.key", labs, scope_blocks=region)
+            # the regex comes from the keep-unique attribute itself
+            news = [(bi, t) for bi, t in vb.calls() if callee_matches(t, r"regex::Regex::new$")]
+            for bi, t in news:
+                la = ctx.prov.read_operand(vb, t["args"][0])
+                if P.has_const(la, NAME):
+                    n_key += 1
+                else:
+                    out.viol("C07.key", "C07.key|pattern-source", ctx.where(vb, t["span"]), "the regex is compiled from [%s], not from the `keep-unique` attribute" % util.origins_text(la, 4))
+        out.inst("C07.key", n_key, 7, ["key := line.trim() | caps.name('value') else caps.get(0) | skip"])
 
     shared.sh_err(ctx, out, ctx.validator_bodies(NAME), floor=6)
     shared.sh_state(ctx, out, NAME)
@@ -172,7 +308,7 @@ def run(ctx, out, tier):
     else:
         out.inst("C07.detect", 0, 4)
     from rules.C10 import check_line_base
-    check_line_base(ctx, out, "keep-unique", "C07.line")
+    check_line_base(ctx, out, "keep-unique", "C07.line", index_by_model=decided is not None)
     shared.sh_flags(ctx, out, "keep-unique", "C07.flags")
     return meta()
 
